@@ -316,6 +316,33 @@ func (e *Engine) run(frp **Frame, s *State, blk, prev, stop *ssa.BasicBlock, phi
 					prev, blk = blk, blk.Succs[0]
 					break
 				}
+				if e.H.noMerge && !fr.harn {
+					// path enumeration: this run follows one side; the harness is re-executed for the other
+					h := e.H
+					var v int
+					if h.cidx < len(h.choices) {
+						v = h.choices[h.cidx]
+					} else {
+						h.choices = append(h.choices, 0)
+					}
+					if h.cidx < len(h.ranges) {
+						h.ranges[h.cidx] = [2]int{0, 1}
+					} else {
+						h.ranges = append(h.ranges, [2]int{0, 1})
+					}
+					h.cidx++
+					cc := c
+					if v == 1 {
+						cc = e.st.Not(c)
+					}
+					if e.st.And(s.pc, cc).IsFalse() {
+						s.dead = true
+						return outcome{k: oDead}
+					}
+					s.pc = e.st.And(s.pc, cc)
+					prev, blk = blk, blk.Succs[v]
+					break
+				}
 				fr.forks[i]++
 				if fr.forks[i] > e.maxSymFork {
 					// unwinding obligation: this path must be infeasible
